@@ -54,10 +54,11 @@ DepthOrder(p1, q1, p2, q2) ==
   (p1[3] > 0 /\ p2[3] > p1[3]) => (q1[4] > 0 /\ q2[4] > 0 /\ q1[3] * (q2[4] \div 64) < q2[3] * (q1[4] \div 64))
 
 \* ---------------------------------------------------------------- orthographic
-\* box lo, hi (integers, lo < hi componentwise), point p: ndc_i = (2 p_i - lo_i - hi_i) / (hi_i - lo_i)
+\* box lo, hi (integers, lo # hi componentwise; an axis with lo > hi is mirrored: lo still goes to -1 and
+\* hi to +1), point p: ndc_i = (2 p_i - lo_i - hi_i) / (hi_i - lo_i)
 OrthoOK(lo, hi, p, q) ==
   /\ Near(q[4], SC, 4)
-  /\ \A i \in 1..3 : Near(q[i] * (hi[i] - lo[i]), (2 * p[i] - lo[i] - hi[i]) * SC, 6 * (hi[i] - lo[i]) + Abs(2 * p[i] - lo[i] - hi[i]))
+  /\ \A i \in 1..3 : Near(q[i] * (hi[i] - lo[i]), (2 * p[i] - lo[i] - hi[i]) * SC, 6 * Abs(hi[i] - lo[i]) + Abs(2 * p[i] - lo[i] - hi[i]))
 
 \* ---------------------------------------------------------------- viewport
 \* ndc = <<nx, ny>> / 4 ; rect <<x0, y0, x1, y1>>; s = observed screen point (scaled)
@@ -142,6 +143,13 @@ Allowed(e) ==
             ELSE IF e.tsc = 0
             THEN Near((e.itgt[3] \div 64) * (e.itgt[3] \div 64), e.d2 * (SC \div 64) * (SC \div 64), (e.d2 * (SC \div 64) * (SC \div 64)) \div 200 + 64)
             ELSE Near(e.itgt[3], e.d, 12 + e.d \div 64 + tp)
+    \* the first-person view transform under another float backend (e.be): rigid as tightly as under std for
+    \* libm; the approximating backends (mm, none) are only held to 2 %
+    [] e.op = "rigid" ->
+         /\ e.panic = 0
+         /\ IF e.be \in {"libm", "std"} THEN RigidOK(e.M)
+            ELSE \A i \in 1..3, j \in 1..3 :
+                   Near((e.M[i][1] * e.M[j][1] + e.M[i][2] * e.M[j][2] + e.M[i][3] * e.M[j][3]) \div SC, IF i = j THEN SC ELSE 0, SC \div 50)
     [] e.op = "fpmove" ->
          \* heading azimuth with (cos, sin) = (cx, sz) / kd: forward = (cx, 0, sz) / kd, right = up x forward = (sz, 0, -cx) / kd
          /\ e.panic = 0
